@@ -178,6 +178,10 @@ class Const:
         return self.raw.get("def")
 
     @property
+    def static(self):
+        return self.raw.get("static")
+
+    @property
     def ty(self):
         t = self.raw.get("ty")
         return self.strs[t] if t is not None else None
